@@ -12,13 +12,13 @@
 //@ requires#start [C17]
       old(t).taken == old(t).written
 //@ loop 0
-//@ invariant#every_reply_taken_from_the_channel_is_written_once_and_in_order [C17,C06]
+//@ invariant#every_reply_taken_from_the_channel_is_written_once_and_in_order [C17,C06,C13,C12,C11,C07]
       t.taken == t.written
 //@ end
 
 //@ fn cln_plugin::ConfiguredPlugin::start#io
 //@ implicit [C06,C17]
-//@ ensures#the_driver_reads_on_from_the_handshake_reader_with_what_it_has_buffered [C17,C06]
+//@ ensures#the_driver_reads_on_from_the_handshake_reader_with_what_it_has_buffered [C17,C06,C13,C12,C11,C07]
 //    bytes of the next message that arrived in the same read as `init` are in the reader's buffer:
 //    the driver must be given that reader, not a fresh one around the same stream
       r.1 == self.input && r.0 == self.output
